@@ -28,6 +28,7 @@ import (
 
 	execution "github.com/furiko-io/furiko/apis/execution/v1alpha1"
 	jobtasks "github.com/furiko-io/furiko/pkg/execution/tasks"
+	"github.com/furiko-io/furiko/pkg/utils/ktime"
 )
 
 const (
@@ -73,10 +74,25 @@ func (p *PodTask) GetTaskRef() execution.TaskRef {
 		task.RunningTimestamp = &t
 	}
 	if t := p.GetFinishTimestamp(); !t.IsZero() {
+		// The Pod may not tell when it finished (e.g. it was evicted and has no container
+		// statuses), and GetFinishTimestamp then falls back to the time it started. Use the
+		// current time instead, like for a task whose final state is unknown: the finish
+		// time that is first recorded for the task is kept, and retries are delayed from it.
+		if !p.hasFinishTimestamp() {
+			t = *ktime.Now()
+		}
 		task.FinishTimestamp = &t
 	}
 
 	return task
+}
+
+// hasFinishTimestamp returns true if the time that the Pod finished can be told from the Pod.
+func (p *PodTask) hasFinishTimestamp() bool {
+	if t := GetContainerTerminateTime(p.Pod); !t.IsZero() {
+		return true
+	}
+	return p.Status.Reason == reasonDeadlineExceeded && p.Spec.ActiveDeadlineSeconds != nil
 }
 
 func (p *PodTask) GetKind() string {
